@@ -137,6 +137,13 @@ def pixel_region_spec(rng, cls=None, size=None, center=None, include=None, angle
         return S.reg(cls, meta=meta, center=c, width=w, height=h, angle=ang)
     if cls == 'PolygonPixelRegion':
         xs, ys = polygon_vertices(rng, L, cx, cy, poly_kind)
+        if rng.random() < 0.3:
+            # vertices given relative to an origin (constructor option)
+            ox, oy = cx + rng.uniform(-1, 1) * L, cy + rng.uniform(-1, 1) * L
+            if rng.random() < 0.5:
+                ox, oy = float(round(ox)), float(round(oy)) + 0.5
+            return S.reg(cls, meta=meta, vertices=S.pix(S.arr_spec([x - ox for x in xs]), S.arr_spec([y - oy for y in ys])),
+                         origin=S.pix(ox, oy))
         return S.reg(cls, meta=meta, vertices=S.pix(S.arr_spec(xs), S.arr_spec(ys)))
     if cls == 'RegularPolygonPixelRegion':
         return S.reg(cls, meta=meta, center=c, nvertices=rng.randint(3, 12), radius=L / 2, angle=ang)
@@ -292,3 +299,50 @@ def rich_visual(rng, nmax=4):
     for k in rng.sample(sorted(VISUAL_VOCAB), rng.randint(0, nmax)):
         v[k] = rng.choice(VISUAL_VOCAB[k])
     return v
+
+
+# ---------------------------------------------------------------------------
+# in-place edits of a live region (mutate-then-requery histories)
+def mutate_live(region, rng):
+    """Assign one new valid value to a live pixel region; returns a label.
+    RegularPolygonPixelRegion geometry is left alone (its vertices are derived
+    once at construction; reassigning its parameters is outside the checked
+    properties), only its meta is replaced."""
+    import astropy.units as u
+    from regions import PixCoord, RegionMeta
+    name = type(region).__name__
+    if name == 'CompoundPixelRegion':
+        return 'compound:' + mutate_live(region.region1 if rng.random() < 0.5 else region.region2, rng)
+    choices = ['meta']
+    if name != 'RegularPolygonPixelRegion':
+        choices += [p for p in region._params if p != 'text'] * 2
+    p = rng.choice(choices)
+    if p == 'meta':
+        inc = not bool(dict.get(region.meta, 'include', True))
+        region.meta = RegionMeta({'include': inc})
+        return f'meta include={inc}'
+    v = getattr(region, p)
+    if isinstance(v, PixCoord):
+        if v.isscalar:
+            d = rng.uniform(-3, 3)
+            setattr(region, p, PixCoord(v.x + d * max(1.0, abs(v.x) * 1e-3), v.y - 0.7 * d))
+        else:
+            import numpy as np
+            x, y = np.array(v.x, dtype=float), np.array(v.y, dtype=float)
+            cx, cy = x.mean(), y.mean()
+            f = rng.uniform(0.5, 1.7)
+            setattr(region, p, PixCoord(cx + (x - cx) * f + rng.uniform(-2, 2), cy + (y - cy) / f))
+        return p + ' moved'
+    if isinstance(v, u.Quantity):
+        setattr(region, p, v + rng.uniform(10, 80) * u.deg)
+        return p + ' turned'
+    # sizes: keep annuli ordered
+    pairs = {'inner_radius': 'outer_radius', 'inner_width': 'outer_width', 'inner_height': 'outer_height'}
+    rev = {b: a for a, b in pairs.items()}
+    if p in pairs:
+        setattr(region, p, getattr(region, pairs[p]) * rng.uniform(0.1, 0.9))
+    elif p in rev:
+        setattr(region, p, getattr(region, rev[p]) * rng.uniform(1.2, 3.0))
+    else:
+        setattr(region, p, v * rng.choice([0.4, 0.7, 1.6, 2.5]))
+    return p + ' resized'
